@@ -55,8 +55,8 @@ def run(ctx):
     q = ctx.quick()
     conc.run_component(ctx, WFCQ, ["wfcq_2e1d", "wfcq_nb", "wfcq_splice", "wfcq_locked"], nseeds=150 if q else 3000, nsim=40 if q else 400)
     wq = ["wfq_2e1d", "wfq_locked", "wfq_reuse"]
-    conc.run_component(ctx, wfq_component(False), wq, nseeds=100 if q else 2000, nsim=30 if q else 300)
-    for scn in wq:      # design level with the plain store buffered as on the hardware (no code binding needed: same labels)
+    conc.run_component(ctx, wfq_component(False), wq, nseeds=60 if q else 2000, nsim=20 if q else 300)
+    for scn in (["wfq_reuse"] if q else wq):      # design level with the plain store buffered as on the hardware (no code binding needed: same labels)
         if len(ctx.violations) < conc.MAXV:
             r = conc.model_check(ctx, wfq_component(True), load_scenario(scn))
             log("  [TLC] %s (PlainBuf): %d distinct states, %.0fs, %s" % (scn, r.distinct, r.wall, "ok" if r.ok else (r.violation or r.error)))
